@@ -15,6 +15,7 @@ import os, sys, json, time, signal, select, sqlite3, traceback, threading, errno
 CHILD_TIMEOUT = 30.0     # watchdog inside C / G (seconds; generous: the machine may be heavily loaded)
 PARENT_TIMEOUT = 150.0   # watchdog inside P
 CASE_TIMEOUT = 180.0     # H waits this long for P
+THREAD_STATE_CHILD_TIMEOUT = 5.0   # 'thread_open_write' histories: a deadlock is proven by the stack, not by the time
 
 
 # ------------------------------------------------------------------------------------------------
@@ -426,6 +427,30 @@ def _sqlite_history(case, world):
         setup.append(world.op('P', 'open'))
         setup.append(world.op('P', 'write_flush', 'pc'))
         setup.append(world.op('P', 'commit'))
+    elif state == 'thread_open_write':
+        # ANOTHER thread of the parent holds an open write transaction (and pony's SQLite transaction lock) at the fork
+        ready, done = threading.Event(), threading.Event()
+        thread_rec = {'who': 'PT', 'op': 'thread_write', 'label': 'tu', 'ok': None}
+
+        def thread_body():
+            try:
+                with world.orm.db_session:
+                    world.E(name='tu')
+                    world.orm.flush()
+                    ready.set()
+                    done.wait(PARENT_TIMEOUT)
+                thread_rec['ok'] = True
+            except Exception as e:
+                thread_rec['ok'] = False
+                thread_rec['exc'] = _exc_info(e)
+            finally:
+                ready.set()
+        thread = threading.Thread(target=thread_body)
+        thread.daemon = True
+        thread.start()
+        ready.wait(PARENT_TIMEOUT)
+        if thread_rec['ok'] is False:
+            return dict(obs, harness_error='setup thread failed: %r' % (thread_rec,))
     else:
         raise ValueError(state)
     for rec in setup:
@@ -447,7 +472,7 @@ def _sqlite_history(case, world):
         run_ops(world, 'C', case['child'], labels, recs)
         return {'records': recs, 'events': _sub_events(mark)}
 
-    pid, fd = fork_and_report(child_body, CHILD_TIMEOUT)
+    pid, fd = fork_and_report(child_body, THREAD_STATE_CHILD_TIMEOUT if state == 'thread_open_write' else CHILD_TIMEOUT)
     os.close(go_r)
     obs['pids']['C'] = pid
 
@@ -477,6 +502,10 @@ def _sqlite_history(case, world):
 
     # ---- epilogue: the parent finishes its open session (commit) and reads everything in a new session -----
     fin = []
+    if state == 'thread_open_write':
+        done.set()
+        thread.join(PARENT_TIMEOUT)
+        obs['thread'] = thread_rec
     if world.session is not None:
         fin.append(world.op('P', 'end_session'))
         if not fin[-1]['ok']:
